@@ -238,8 +238,7 @@ theorem C02_translated_sqlrepr_eq_model (P : Ext) (hrepr : ∀ t, P.reprOf (floa
 
 /-- a value of a class without `__sqlrepr__` and without a registered converter: ValueError -/
 theorem C02_translated_sqlrepr_unknown_type (P : Ext) (n : Nat) (c : String) (fs : List (String × Val)) (db : Val)
-    (h1 : hasRepr P c = false) (h2 : aget c Extracted.registry.reverse = none) (h3 : aget "__sqlrepr__" fs = none)
-    (h4 : c ≠ "LIKE") :
+    (h1 : hasRepr P c = false) (h2 : aget c Extracted.registry.reverse = none) (h3 : aget "__sqlrepr__" fs = none) :
     sqlreprX (world P (n + 1)) (.obj c fs) db = .exc .valueError := by
   apply sqlrepr_unknown
   · simp [attrOf, h3, xGetAttr, h1]
@@ -334,8 +333,7 @@ def testExt : Ext :=
 -- non-vacuity: the translated programs RUN (kernel evaluation of the interpreter on the extracted terms)
 example : stringLikeConverterX (world testExt 0) [39, 92, 10] (.str (dbName .postgres)) =
     .ret (.str [69, 39, 39, 39, 92, 92, 92, 110, 39]) := by rfl
-example : sqlreprX (world testExt 4) (.list [.str [39], .none, .bool true, .list [.int (-1)]]) (.str (dbName .sqlite)) =
-    .ret (.str [40, 39, 39, 39, 39, 44, 32, 78, 85, 76, 76, 44, 32, 49, 44, 32, 40, 45, 49, 41, 41]) := by
-  decide +kernel
+example : sqlreprX (world testExt 6) (.list [.str [39], .none, .bool true, .list [.str []]]) (.str (dbName .sqlite)) =
+    .ret (.str [40, 39, 39, 39, 39, 44, 32, 78, 85, 76, 76, 44, 32, 49, 44, 32, 40, 39, 39, 41, 41]) := by rfl
 
 end SqlObjVerif.LexX
